@@ -194,6 +194,7 @@ S_SNIPPETS = [
     "struct Al {\n    a: u8  , // \u00e9\u00e9\u00e9\u00e9\n\n    bb: u16, // x\n}\nfn al() { let _ = Al { a: 1  , // \u00e9\u00e9\n\n        bb: 2 }; }\n",
     "extern \"a\\nb\" { fn f(); }\nextern \"C\" { fn g(); }\n",
     "extern \"C\\\n\" { fn f(); }\nunsafe extern r\"a\nb\" {}\n",
+    "fn lg() {\n    a();\n    // " + "\u00e9" * 31 + " words words words\n    b(); /* " + "\u2603" * 17 + " */\n    c();\n}\n",
     "#[cfg(any())] const FX: f32 = 0b1f32;\nfn fl() { let x = 0o7f64; let s = 0b1f32..; let t = 1.0f32; let u = 2.; }\n",
 ]
 LEX_WS = ["\u0085", "\u200e", "\u200f", "\u2028", "\u2029"]      # white space for the lexer (Pattern_White_Space)
@@ -201,7 +202,7 @@ UNI_WS = ["\u3000", "\u00a0", "\u2003", "\u1680", "\u2028", "\u2029", "\u0085"] 
 
 
 def gen_seeded(rng):
-    text = "".join(rng.sample(S_SNIPPETS, rng.range(1, 3)))
+    text = "".join(rng.sample(S_SNIPPETS, rng.range(1, 3))) if not rng.chance(4) else ""
     desc = []
     if rng.chance(70):
         # blanks become (or gain) other white space; in code only what the lexer accepts keeps the text parsable
@@ -277,7 +278,9 @@ def generate(rng, tier):
         text, desc, cfg = gen_seeded(rng)
         return {"lane": "B", "source": "seeded-constructs", "text": text, "mutations": desc or ["none"], "depth": 0, "badutf8": False,
                 "delivery": rng.choice(["root", "root", "stdin", "module"]), "config": cfg, "hashseed": rng.below(1 << 32),
-                "via": rng.choice(["file", "cli"]), "emit": rng.choice([[], ["--check"], ["--emit", "stdout"], ["--emit", "coverage"]])}
+                "via": rng.choice(["file", "cli"]), "emit": rng.choice([[], ["--check"], ["--emit", "stdout"], ["--emit", "coverage"]]),
+                "term": "dumb", "log": rng.choice([None] * 5 + ["debug", "trace", "rustfmt_nightly::missed_spans=debug"]),
+                "filelines": rng.choice([None] * 6 + ["empty", "range"]), "flrange": [rng.range(1, 6), rng.range(1, 12)]}
     if rng.chance(4):
         text, desc = gen_cfg_macro(rng)
         return {"lane": "T", "text": text, "mutations": desc, "emit": rng.choice([[], ["--check"], ["--emit", "stdout"]]),
@@ -349,7 +352,7 @@ def generate(rng, tier):
         text = rustlex.amplify(rng, text, depth)
     if rng.chance(3):
         # truncation taken to its end: nothing, or next to nothing, is left of the file
-        text = rng.choice(["", "", "\n", "   ", "\n\n\n", "//", "/*", "\ufeff", "\r\n", "#!"])
+        text = rng.choice(["", "", "", "", "\n", "   ", "\n\n\n", "//", "/*", "\ufeff", "\r\n", "#!"])
         desc = desc + ["truncate-to-nothing"]
     # whole-file opt-outs and verbosity: paths that bypass the formatting phase altogether
     optout = rng.choice([None] * 8 + ["innerskip", "generated", "ignored"])
